@@ -247,3 +247,180 @@ Definition judge (c : case) : Z := judge0 c.
 Definition trace (c : case) := trace0 c (map init_state (defs c)) (map (fun _ => []) (defs c)) (hist c).
 Definition mk (at_ : list (atom * Z)) (ct : list (Z * Z)) (ds : list sdef) (h : list (Z * rop)) : case :=
   {| atable := at_; ctable := ct; defs := ds; hist := h |}.
+
+(* ======================================================================
+   Adapter configurations (appended; nothing above is changed).
+
+   A TemporalFactStoreAdapter - unpinned (NewTemporalFactStoreAdapter) or
+   pinned at an instant t (NewTemporalFactStoreAdapterAt) - over a temporal
+   store that is ALSO written directly with (atom, interval) pairs. The
+   specification state of a temporal store is the set of its pairs; the
+   FactStore view of an adapter is derived from it:
+     unpinned      the atoms having at least one interval
+     pinned at t   the atoms having an interval [lo, hi] with lo <= t <= hi
+   and that view takes the place of the adapter slot's set in the set machine
+   above (`visible` / `leaf` are reused unchanged, so merged / teeing /
+   concurrent wrappers over adapters are judged as the set of the union).
+   Only the set machine runs here (there is no executable model of the
+   interval trees in this file: that is C13). Verdicts of [judge_a]:
+     0          every judged result is the set machine's
+     1000 + k   op k differs from the set machine: the property is violated
+     9999       malformed case
+   Judged: Contains, GetFacts (as multisets: each matching atom exactly
+   once), Remove, ListPredicates (exact, or superset when marked ghost: the
+   temporal store lists predicates all of whose intervals miss the pinned
+   instant), and - when marked strict - the result of Add and the count
+   (TemporalStore.EstimateFactCount is documented as the number of (atom,
+   interval) pairs; the adapter's Add reports whether the ETERNAL interval is
+   new, which is the set's answer only if the atom is not yet in the view or
+   already eternal). *)
+Definition ival := (option Z * option Z)%type.         (* None = unbounded on that side *)
+Definition iv_valid (iv : ival) : bool :=
+  match iv with (Some lo, Some hi) => lo <=? hi | _ => true end.   (* TemporalStore.Add rejects start > end *)
+Definition iv_covers (iv : ival) (t : Z) : bool :=              (* interval_tree.go containsTimestamp: closed on both sides *)
+  (match fst iv with Some lo => lo <=? t | None => true end) &&
+  (match snd iv with Some hi => t <=? hi | None => true end).
+Definition eternal : ival := (None, None).
+
+Inductive tdef := TPlain | TTee (base : Z).   (* NewTemporalStore | NewTeeingTemporalStore(earlier temporal store) *)
+Inductive aop :=
+| AStd (i : Z) (o : rop) (strict : bool)      (* an operation of the FactStore interface on slot i *)
+| ATAdd (ts : Z) (a : atom) (iv : ival).      (* TemporalFactStore.Add(a, iv) on temporal store ts, bypassing every adapter *)
+Record acase := { a_defs : list sdef;                       (* adapters are DBase slots (the kind is not used) *)
+                  a_tdefs : list tdef;
+                  a_views : list (Z * (Z * option Z));      (* adapter slot -> (temporal store, pinned instant) *)
+                  a_hist : list aop }.
+Definition tpairs_t := list (list (atom * ival)).           (* own pairs of every temporal store *)
+
+Section Adapter.
+  Variable ac : acase.
+  Definition bc : case := mk [] [] (a_defs ac) [].
+  Definition fuelT : nat := Datatypes.S (length (a_tdefs ac)).
+  (* the pairs a temporal store shows: a teeing temporal store reads its base and its own output store *)
+  Fixpoint tpairs (fuel : nat) (tst : tpairs_t) (j : Z) : list (atom * ival) :=
+    match fuel with
+    | O => []
+    | Datatypes.S f =>
+      match nthZ TPlain (a_tdefs ac) j with
+      | TPlain => nthZ [] tst j
+      | TTee b => tpairs f tst b ++ nthZ [] tst j
+      end
+    end.
+  Definition aview (pairs : list (atom * ival)) (at_ : option Z) : sset :=
+    dedup atom_eqb (map fst (filter (fun p => match at_ with None => true | Some t => iv_covers (snd p) t end) pairs)).
+  (* the sets the wrappers see: adapter slots carry their derived view *)
+  Definition eff (sets : list sset) (tst : tpairs_t) : list sset :=
+    fold_left (fun s v => setZ s (fst v) (aview (tpairs fuelT tst (fst (snd v))) (snd (snd v)))) (a_views ac) sets.
+  (* the leaf that receives Add(a) sent to slot i; None: a wrapper answers false without writing
+     (MergedStore.Add: Contains first; TeeingStore.Add: base.Contains first) *)
+  Fixpoint add_target (fuel : nat) (E : list sset) (i : Z) (a : atom) : option Z :=
+    match fuel with
+    | O => None
+    | Datatypes.S f =>
+      match nthZ (DConc (-1)) (a_defs ac) i with
+      | DBase _ => Some i
+      | DConc b => add_target f E b a
+      | DMerged _ w => if s_mem a (visible bc (Datatypes.S f) E i) then None else add_target f E w a
+      | DTee b => if s_mem a (visible bc f E b) then None else Some i
+      end
+    end.
+  (* leaf l gains the atoms l_new: an adapter adds each one with the eternal interval *)
+  Definition gain (sets : list sset) (tst : tpairs_t) (l : Z) (news : list atom) : list sset * tpairs_t :=
+    match get Z.eqb l (a_views ac) with
+    | Some (ts, _) => (sets, setZ tst ts (map (fun a => (a, eternal)) news ++ nthZ [] tst ts))
+    | None => let L := nthZ [] sets l in
+              (setZ sets l (dedup atom_eqb (filter (fun a => negb (s_mem a L)) news) ++ L), tst)
+    end.
+
+  Definition step_a (sets : list sset) (tst : tpairs_t) (o : aop) : bool * list sset * tpairs_t :=
+    match o with
+    | ATAdd ts a iv =>
+      (true, sets, if iv_valid iv then setZ tst ts ((a, iv) :: nthZ [] tst ts) else tst)
+    | AStd i o strict =>
+      let E := eff sets tst in
+      let V := vis bc E i in
+      match o with
+      | RAdd a res =>
+        let ok := if strict then Bool.eqb (negb (s_mem a V)) res else true in
+        match add_target (fuel0 bc) E i a with
+        | Some l => let '(sets', tst') := gain sets tst l [a] in (ok, sets', tst')
+        | None => (ok, sets, tst)
+        end
+      | RRemove a res =>
+        let l := lf bc i in
+        (Bool.eqb (s_mem a V) res, setZ sets l (fst (s_remove a (nthZ [] sets l))), tst)
+      | RContains a res => (Bool.eqb (s_mem a V) res, sets, tst)
+      | RQuery q res => (perm_eqb atom_eqb (s_query q V) res, sets, tst)
+      | RPreds ghost res =>
+        (if ghost then subset_b pred_eqb (s_preds V) res else perm_eqb pred_eqb (s_preds V) res, sets, tst)
+      | RCount res => (if strict then s_count V =? res else true, sets, tst)
+      | RMerge j =>
+        let '(sets', tst') := gain sets tst (lf bc i) (vis bc E j) in (true, sets', tst')
+      end
+    end.
+
+  Fixpoint replay_a (sets : list sset) (tst : tpairs_t) (k : Z) (h : list aop) : Z :=
+    match h with
+    | [] => 0
+    | o :: h' => let '(ok, sets', tst') := step_a sets tst o in
+                 if ok then replay_a sets' tst' (k + 1) h' else 1000 + k
+    end.
+
+  Fixpoint trefs_ok (j : Z) (ds : list tdef) : bool :=
+    match ds with
+    | [] => true
+    | d :: ds' => (match d with TPlain => true | TTee b => (0 <=? b) && (b <? j) end) && trefs_ok (j + 1) ds'
+    end.
+  Definition in_range {A} (l : list A) (i : Z) : bool := (0 <=? i) && (i <? Z.of_nat (length l)).
+  Definition wellformed_a : bool :=
+    refs_ok 0 (a_defs ac) && trefs_ok 0 (a_tdefs ac) &&
+    forallb (fun v => in_range (a_defs ac) (fst v) && in_range (a_tdefs ac) (fst (snd v)) &&
+                      match nthZ (DConc (-1)) (a_defs ac) (fst v) with DBase _ => true | _ => false end) (a_views ac) &&
+    forallb (fun o => match o with
+                      | AStd i (RMerge j) _ => in_range (a_defs ac) i && in_range (a_defs ac) j
+                      | AStd i (RRemove _ _) _ =>      (* the adapter has no Remove *)
+                        in_range (a_defs ac) i && negb (is_some (get Z.eqb (lf bc i) (a_views ac)))
+                      | AStd i _ _ => in_range (a_defs ac) i
+                      | ATAdd ts _ _ => in_range (a_tdefs ac) ts
+                      end) (a_hist ac).
+  Definition init_sets : list sset := map (fun _ => []) (a_defs ac).
+  Definition init_tst : tpairs_t := map (fun _ => []) (a_tdefs ac).
+
+  (* for replay files: the set machine's answer at each op *)
+  Definition answer_a (sets : list sset) (tst : tpairs_t) (o : aop) : out :=
+    match o with
+    | ATAdd _ _ _ => OU
+    | AStd i o _ =>
+      let V := vis bc (eff sets tst) i in
+      match o with
+      | RAdd a _ => OB (negb (s_mem a V))
+      | RRemove a _ | RContains a _ => OB (s_mem a V)
+      | RQuery q _ => OL (s_query q V)
+      | RPreds _ _ => OP (s_preds V)
+      | RCount _ => ON (s_count V)
+      | RMerge j => OL (vis bc (eff sets tst) j)
+      end
+    end.
+  Fixpoint trace_a0 (sets : list sset) (tst : tpairs_t) (h : list aop) : list out :=
+    match h with
+    | [] => []
+    | o :: h' => let '(_, sets', tst') := step_a sets tst o in answer_a sets tst o :: trace_a0 sets' tst' h'
+    end.
+End Adapter.
+
+Definition judge_a (ac : acase) : Z :=
+  if wellformed_a ac then replay_a ac (init_sets ac) (init_tst ac) 1 (a_hist ac) else 9999.
+Definition trace_a (ac : acase) := trace_a0 ac (init_sets ac) (init_tst ac) (a_hist ac).
+Definition amk (ds : list sdef) (ts : list tdef) (vs : list (Z * (Z * option Z))) (h : list aop) : acase :=
+  {| a_defs := ds; a_tdefs := ts; a_views := vs; a_hist := h |}.
+
+(* the seeded change C06-3 in miniature: p(7) holds during [0,10] and [5,15]; the adapter pinned at 7 must
+   yield it once (0), yielding it twice is rejected at op 3 *)
+Example adapter_pinned_once :
+  judge_a (amk [DBase KSimple] [TPlain] [(0, (0, Some 7))]
+               [ATAdd 0 (0, [7]) (Some 0, Some 10); ATAdd 0 (0, [7]) (Some 5, Some 15);
+                AStd 0 (RQuery (0, [None]) [(0, [7])]) true]) = 0 /\
+  judge_a (amk [DBase KSimple] [TPlain] [(0, (0, Some 7))]
+               [ATAdd 0 (0, [7]) (Some 0, Some 10); ATAdd 0 (0, [7]) (Some 5, Some 15);
+                AStd 0 (RQuery (0, [None]) [(0, [7]); (0, [7])]) true]) = 1003.
+Proof. split; vm_compute; reflexivity. Qed.
